@@ -149,6 +149,9 @@ func runChildLoop(input []byte, d time.Duration) childVerdict {
 	if v.status == "not-run" && started {
 		if ctx.Err() != nil {
 			v.status, v.detail = "timeout", fmt.Sprintf("killed after %v", d)
+		} else if strings.Contains(fmt.Sprint(runErr), "signal: killed") || strings.Contains(out.String(), "out of memory") || strings.Contains(out.String(), "cannot allocate memory") {
+			// killed from outside (memory pressure on a shared machine): says nothing about the input
+			v.status, v.detail = "not-run", fmt.Sprintf("child killed (%v): %s", runErr, truncate(out.String(), 500))
 		} else {
 			v.status = "crash"
 			v.detail = fmt.Sprintf("child died (%v) while running the loop on this input; output:\n%s", runErr, crashSummary(out.String()))
